@@ -680,7 +680,12 @@ func (l *lexer) lexHeredoc() action {
 	find := func(r *ast.Redir, delim string) bool {
 		for i := len(l.word) - 1; i >= 0; i-- {
 			if l.word[i].Pos().Col() == 1 {
-				if s := l.print(l.word[i:]); strings.ContainsRune(s, '\n') {
+				s := l.print(l.word[i:])
+				if r.Op == "<<-" {
+					// the delimiter may be indented with tabs
+					s = strings.TrimLeft(s, "\t")
+				}
+				if strings.ContainsRune(s, '\n') {
 					break
 				} else if s == delim {
 					r.Heredoc = l.word[:i]
